@@ -53,6 +53,10 @@ class Real:
         for k in self.prog.get('defusers', ()):
             # a callback of the event itself takes care of its failure
             self.events[k].callbacks.append(lambda e: setattr(e, 'defused', True))
+        for (k, pname, cause) in self.prog.get('cb_interrupts', ()):
+            # a callback of the event interrupts a process (whoever ran last; the callback is no process at all)
+            self.events[k].callbacks.append(
+                lambda e, pname=pname, cause=cause: self.procs[pname].interrupt(cause) if pname in self.procs else None)
         for spec in self.prog['procs']:
             self.procs[spec['name']] = env.process(self.gen(spec, spec['phase']))
 
@@ -261,6 +265,7 @@ class MEvent:
         self.defuser = False
         self.handled = False
         self.reg_times = []       # dates at which waiters / conditions started to observe this event
+        self.cb_int = []          # (process name, cause): callbacks that interrupt a process
 
 
 class MCond(MEvent):
@@ -300,6 +305,8 @@ class Model:
             self.events[k].callbacks += 1
         for k in prog.get('defusers', ()):
             self.events[k].defuser = True
+        for (k, pname, cause) in prog.get('cb_interrupts', ()):
+            self.events[k].cb_int.append((pname, cause))
         self.flags = [MEvent() for _ in range(prog.get('nflags', 0))]
         self.procs = {}
         self.cb = []
@@ -603,6 +610,18 @@ class Model:
     def process_event(self, ev):
         for _ in range(ev.callbacks):
             self.cb.append((ev.eid, self.now))
+        for (pname, cause) in ev.cb_int:
+            tgt = self.procs.get(pname)
+            if tgt is None:
+                continue
+            if tgt.pc < 0 and tgt.waiting is None:
+                raise InvalidCase('interrupt of a process that has not started')
+            if getattr(tgt, 'finish_time', None) == self.now:
+                raise Ambiguous('interrupt of a process that ends in this very time step')
+            if tgt.alive:
+                tgt.interrupts.append(cause)
+                self.pushes.setdefault(tgt.name, []).append((self.now, self.seq))
+                self.push(self.now, ('interrupt', tgt))
         if ev.defuser:
             ev.handled = True      # the callbacks run first, then the failure is looked at
         if ev.state[0] == 'fail' and not ev.handled and self.crash is None:
